@@ -75,7 +75,9 @@ func (p *NumInfo) decimal(v *apd.Decimal) error {
 		v.Coeff.SetString(string(b), int(p.base))
 		return nil
 	}
-	_ = v.UnmarshalText(p.buf)
+	if err := v.UnmarshalText(p.buf); err != nil {
+		return p.errorf("number %s out of range: %v", p.src, err)
+	}
 	if p.mul != 0 {
 		// Apply the multiplier exactly: a precision of zero disables rounding,
 		// so that an integer with a multiplier keeps all of its digits.
